@@ -31,6 +31,11 @@ CLAIMED = {
    note="Trusted: trace quantum memory, fake link with ghost creators, scheduler, invariant code. Applications are stopped only between their own subroutines; entanglement blocks are well-formed, random tails may fault.",
    technique="deterministic simulation: seeded interleaving of application lifecycles with faulting programs + invariants after every event",
    ref="§5 C13"),
+ "C05": dict(
+   text="Seeded exploration: generated host programs (if x6 conditions x context/callback, loop, loop_body, foreach, enumerate, loop_until, add +-modulus, arrays with initial values, measurement into futures / array slots / registers; nesting <=3; <=12 top-level statements) run through the real SDK -> assembler -> codec -> controller pipeline with a scheduler-owned measurement-outcome script and flush placement, and through an independent direct evaluator of the same AST; at every flush the controller's gate trace, arrays, registers and every host-visible Future/RegFuture/Array are compared.",
+   note="Trusted: direct evaluator + generator sim/models/host_ref.py (programs read only definitely-defined values; body-local qubits consumed in the body; register futures used as operands only inside their flush segment), trace memory, SimConnection. Vanilla flavour, generic hardware, Z-basis measurement.",
+   technique="deterministic simulation: scheduler-owned outcomes and flush placement + differential against a direct evaluator",
+   ref="§5 C05"),
 }
 
 PENDING = {p: 'check not built yet in this round (simulation target per DESIGN §5; will be claimed when its rig exists)' for p in ['C05','C06','C08','C09','C10','C11','C12','C13','C14','C18','C20']}
